@@ -119,13 +119,13 @@ class Flow:
         out = list(live)
 
         def chain_nodes(d):
-            """[(if node, polarity)] outermost first; None when a loop / try / with lies in between"""
+            """[(if node, polarity)] outermost first; None when a loop / try lies in between"""
             res = []
             child, n = d, parent(d)
             while n is not None and not isinstance(n, (ast.FunctionDef, ast.AsyncFunctionDef)):
-                if isinstance(n, (ast.For, ast.While, ast.Try, ast.With)):
+                if isinstance(n, (ast.For, ast.While, ast.Try)):
                     return None
-                if isinstance(n, ast.If):
+                if isinstance(n, ast.If):          # (a with-statement is straight-line code)
                     if any(child is x for x in n.body):
                         res.append((n, True))
                     elif any(child is x for x in n.orelse):
@@ -148,8 +148,11 @@ class Flow:
                     c1 = chain_nodes(d1)
                     if c1 is None:
                         continue
-                k = len(c1)
-                if len(c2) <= k or [(id(a_), p_) for a_, p_ in c2[:k]] != [(id(a_), p_) for a_, p_ in c1]:
+                # common part of the two chains: both definitions lie in the same arms of the same ifs up to there
+                k = 0
+                while k < len(c1) and k < len(c2) and c1[k][0] is c2[k][0] and c1[k][1] == c2[k][1]:
+                    k += 1
+                if len(c2) <= k:
                     continue
                 if not all(decide(n_.test, d2) == pol for n_, pol in c2[k:]):
                     continue
